@@ -33,6 +33,10 @@ partial def loop (fams : List Family) (h : IO.FS.Stream) (out : IO.FS.Stream) : 
   let toks := (line.trimAscii.toString.splitOn " ").filter (· ≠ "")
   match toks with
   | "CASE" :: id :: fam :: args =>
+    -- `chk_*` families are decided on CHECK lines (the implementation's output), not on CASE lines
+    if !fam.startsWith "chk_" then
+      out.putStrLn ("MODEL " ++ id ++ " " ++ dispatch fams fam args.toArray)
+  | "CHECK" :: id :: fam :: args =>
     out.putStrLn ("MODEL " ++ id ++ " " ++ dispatch fams fam args.toArray)
   | _ => pure ()
   loop fams h out
